@@ -11,7 +11,9 @@ The byte constants are the ones `tools/extract_proto.py` read from `/repo` (`Gen
 * An input is a datagram `(data, address)` plus the outcome of the external call
   `Repeater.read_snmp_values` (network I/O; `snmpFails` = it raises), or an *environment* action: the
   application stores the repeater's outbound address (`storage.match_incoming(address,
-  auto_create=True, patch={"address_out": out})` — "must be handled outside" in the source).
+  auto_create=True, patch={"address_out": out})` — "must be handled outside" in the source), or any
+  other single member / attribute (`envPatch`; the theorems assume it never writes `id`, `address_in`
+  or the is-registered key itself: `envOk`).
 * An output is one `transport.sendto(data, dest)`, tagged with the statement that emitted it.
 * Every exception the code can raise on a datagram is an explicit `Res.err`: `data[4] += 1` with
   `data[4] = 255` (`ValueError`), `data[12]`/`data[14]` of a ping shorter than 15 octets
@@ -43,6 +45,10 @@ inductive Input
   | datagram (address : Addr) (data : Bytes) (snmpFails : Bool)
   /-- the application records the outbound address of the repeater at `address` -/
   | setOut (address : Addr) (out : Val)
+  /-- the application patches one member / dynamic attribute of the repeater at `address`:
+  `storage.match_incoming(address, auto_create=True, patch={key: v})` (used to give records attributes
+  whose names nearly equal the is-registered key) -/
+  | envPatch (address : Addr) (key : Key) (v : Val)
   deriving DecidableEq, Repr, Inhabited
 
 /-- which `sendto` statement emitted the datagram -/
@@ -210,6 +216,8 @@ def step (cfg : Cfg) (s : Store) : Input → Store × List Out × Res
     | .nothing => (s, [], .ok)
   | .setOut a out =>
     ((Storage.step s (.matchIncoming a.val true [(.field .addressOut, out)])).1, [], .ok)
+  | .envPatch a key v =>
+    ((Storage.step s (.matchIncoming a.val true [(key, v)])).1, [], .ok)
 
 /-- run a history, collecting outputs and outcomes per input -/
 def runFrom (cfg : Cfg) (s : Store) : List Input → Store × List (List Out × Res)
